@@ -1213,3 +1213,54 @@ Qed.
 
 Lemma restart_covers_proved : forall img m, covers (restart_image img) m = covers img m.
 Proof. intros. apply covers_same_claims. apply restart_keeps_durable_state_proved. Qed.
+
+(* ------------------------------------------------------------------ *)
+(* the file holding a replica's latest state / snapshot record or any of its entries is never
+   obsolete, whatever the other replicas of the same db do *)
+Lemma tan_needed_file_not_obsolete_proved : forall nodes nf fn,
+  In nf nodes ->
+  (nf_state nf = fn \/ nf_snapshot nf = fn \/ In fn (nf_entries nf)) ->
+  file_obsolete nodes fn = false.
+Proof.
+  intros nodes nf fn Hin H. unfold file_obsolete. apply negb_false_iff.
+  apply existsb_exists. exists nf. split; [exact Hin|].
+  unfold file_in_use, tan_file_in_use_fields. cbn [existsb fuse_holds].
+  destruct H as [H|[H|H]].
+  - subst fn. rewrite N.eqb_refl. rewrite orb_true_r. reflexivity.
+  - subst fn. rewrite N.eqb_refl. reflexivity.
+  - assert (E : existsb (N.eqb fn) (nf_entries nf) = true).
+    { apply existsb_exists. exists fn. split; [exact H|apply N.eqb_refl]. }
+    rewrite E. rewrite !orb_true_r. reflexivity.
+Qed.
+
+(* doSave schedules log compaction only after the snapshot was recorded for the replica; an
+   exported snapshot records nothing and schedules nothing *)
+Lemma compaction_after_record_sound : forall effs recorded l1 l2,
+  compaction_after_record recorded effs = true ->
+  effs = l1 ++ EfCompactionScheduled :: l2 -> recorded = true \/ In EfRecorded l1.
+Proof.
+  induction effs as [|e effs IH]; intros recorded l1 l2 H E.
+  - destruct l1; discriminate.
+  - destruct l1 as [|x l1].
+    + simpl in E. injection E as -> _. cbn in H. apply andb_true_iff in H. left. tauto.
+    + simpl in E. injection E as -> E.
+      destruct x; cbn [compaction_after_record] in H.
+      * destruct (IH _ _ _ H E); [left; assumption|right; right; assumption].
+      * destruct (IH _ _ _ H E); [left; assumption|right; right; assumption].
+      * right. left. reflexivity.
+      * apply andb_true_iff in H. left. tauto.
+Qed.
+
+Lemma do_save_compacts_only_recorded_proved : forall exported l1 l2,
+  do_save_run exported do_save_steps = l1 ++ EfCompactionScheduled :: l2 -> In EfRecorded l1.
+Proof.
+  intros exported l1 l2 E.
+  assert (H : compaction_after_record false (do_save_run exported do_save_steps) = true)
+    by (destruct exported; vm_compute; reflexivity).
+  destruct (compaction_after_record_sound _ _ _ _ H E) as [F|F]; [discriminate|exact F].
+Qed.
+
+Lemma do_save_exported_no_compaction_proved :
+  ~ In EfCompactionScheduled (do_save_run true do_save_steps) /\
+  ~ In EfRecorded (do_save_run true do_save_steps).
+Proof. vm_compute. split; intros H; repeat (destruct H as [H|H]; [discriminate|]); exact H. Qed.
